@@ -8,8 +8,8 @@ package chains
 import (
 	"context"
 	"database/sql"
-	"encoding/json"
 	"database/sql/driver"
+	"encoding/json"
 	"time"
 
 	"gorm.io/gorm"
@@ -120,4 +120,21 @@ type NamedCarrier struct {
 	N1 interface{}
 	N2 interface{}
 	N3 interface{}
+}
+
+// Reenter is a gorm.Valuer that, while the statement it is an argument of is
+// being built, calls ReenterHook (the checks use it to build and run another
+// complete statement from the same reusable handle) and then renders as one
+// bound value.
+type Reenter struct{ V int64 }
+
+// ReenterHook is called by Reenter.GormValue (nil = nothing). Set by single-threaded tests only.
+var ReenterHook func()
+
+func (r Reenter) GormValue(_ context.Context, _ *gorm.DB) clause.Expr {
+	if h := ReenterHook; h != nil {
+		ReenterHook = nil // once
+		h()
+	}
+	return clause.Expr{SQL: "?", Vars: []interface{}{r.V}}
 }
